@@ -41,7 +41,10 @@ def taskOf (tj : Json) : Task :=
 
 def handle (j : Json) : Json :=
   let op := jstr j "op"
-  if op == "expand" then
+  if op == "sandboxes" then
+    -- the directory names the pilots of one session are given, in the order they ask
+    jl ((pilotSandboxes 0 [] ((jarr j "pids").map asNat)).map (fun sb => jn sb.2))
+  else if op == "expand" then
     match j.getObjVal? "str" with
     | .ok (.str s) =>
       (match expandStr (jstr j "default") s.toList with
